@@ -193,6 +193,13 @@ def _make_ff(ctx, V, F, desc, monitor, attach=None):
         kw["smooth_attach_weight"] = attach
     if desc["order"] == 4 and desc["seed"] % 3 == 0:
         del kw["order"]  # the documented default order (4) left to the library
+    if desc["elements"] == "faces" and desc.get("kind") in ("grid", "polar") and desc["seed"] % 2 == 0:
+        # a connection supplied by the caller (documented argument): on these planar meshes the flat connection, whose face bases are the
+        # canonical axes and do not follow the border edges
+        from mouette.processing.connection import FlatConnectionFaces
+        ok, conn = ctx.call("FlatConnectionFaces", FlatConnectionFaces, m, monitor=monitor)
+        kw["custom_connection"] = conn
+        ctx.cls("connection:custom_flat")
     ok, ff = ctx.call("SurfaceFrameField[%s]" % desc["elements"], lambda: M.framefield.SurfaceFrameField(m, desc["elements"], **kw), monitor=monitor)
     return m, ff
 
@@ -312,6 +319,14 @@ def run_case(desc, ctx):
             E = E / np.linalg.norm(E)
             best = min(abs(_circ(th - math.atan2(np.dot(E, Y), np.dot(E, X)), math.pi)) for th in _branch_dirs(var[t], order))
             if best > 1e-7:
+                custom_flat = desc.get("kind") in ("grid", "polar") and desc["seed"] % 2 == 0
+                if custom_flat and order != 4:
+                    # K-C18-6: the constraint is written (c/|c|)**4 whatever the order; harmless with the library's own connection (c is real there),
+                    # wrong with a caller-supplied connection whose bases do not follow the edges
+                    ctx.violation("constraints", "faces", "no_branch_tangent_with_caller_supplied_connection_and_order_other_than_4",
+                                  "with a caller-supplied connection and an order other than 4 no branch of the face field is tangent to the border edge",
+                                  face=t, order=order, angle_to_nearest_branch=best)
+                    return
                 ctx.violation("constraints", "faces", "no_branch_tangent_to_feature_edge",
                               "on a face with exactly one border/feature edge no branch of the field is tangent to that edge", face=t, order=order,
                               angle_to_nearest_branch=best)
